@@ -419,6 +419,29 @@ def handleHs (op : String) (toks : List String) : Option String := do
     let fin := if finTok == "ok" then finished13 C .sha256 [4, 4] otherT else [0]
     some (showOutcome (wrap false (hsServer13 C s [srv] [cfg] .sha256 trunc true offered true [(8, 4)] chain thisT (some (8, 4))
       { scheme := some (8, 4), signature := sig } [4, 4] otherT fin)))
+  | "hs13t" =>
+    -- TLS 1.3 server, the client offers a session ticket of a victim (client chain key 66)
+    --   tk:<good|badbinder|hash|expired|unknown|version>  own:<cert|none>
+    let tkTok ← kv toks "tk"
+    let ownTok := (kv toks "own").getD "none"
+    let victim : Cert := { key := 66, alg := .rsa, bits := 2048 }
+    let tk : Ticket := { psk := [0x70], hash := if tkTok == "hash" then .sha384 else .sha256,
+                         version := if tkTok == "version" then 3 else 4, creation := 100, clientChain := [victim] }
+    let dec : Bytes → Option Ticket := fun i => if i == [0x74] && tkTok != "unknown" then some tk else none
+    let now := if tkTok == "expired" then 200 else 120
+    let trunc : Transcript := [1, 0, 0, 9]
+    let binder := if tkTok == "badbinder" then [0] else calcBinder C .sha256 tk.psk trunc false
+    let chain : Chain := if ownTok == "cert" then [cli] else []
+    let sig := proverSign cli (some (8, 4)) false (tbs13 tagClient (toyHash .sha256 thisT))
+    let fin := if finTok == "ok" then finished13 C .sha256 [4, 4] otherT else [0]
+    let o := hsServer13T C s [srv] [] dec 50 now .sha256 trunc true [([0x74], binder)] true [(8, 4)] chain thisT (some (8, 4))
+      { scheme := some (8, 4), signature := sig } [4, 4] otherT fin
+    let who := match o.session with
+      | some se => match se.clientCertChain with
+        | c :: _ => if c.key == 66 then "victim" else "own"
+        | [] => "none"
+      | none => "none"
+    some (showOutcome o ++ " who=" ++ who)
   | "hssrp" =>
     let aTok ← kv toks "A"
     let N := 23; let v := 4; let b := 3; let u := 5
